@@ -240,9 +240,18 @@ def run_case(proc, case, chooser, trace=None):
                 say("spawn child %d -> pid %d" % (c.i, c.pid))
 
             def register(c, kind):
-                r = Reg(kind, st["t"], c.exited)
+                r = Reg("cb" if kind == "cbr" else kind, st["t"], c.exited)
                 c.regs.append(r)
-                if kind == "cb":
+                if kind == "cbr":
+                    # the exit callback registers again on the same object from inside itself
+                    def cb(code, c=c, r=r):
+                        r.calls.append(code)
+                        if len(c.regs) < 3:
+                            r2 = Reg("cb", st["t"], True)
+                            c.regs.append(r2)
+                            c.p.set_exit_callback(r2.calls.append)
+                    c.p.set_exit_callback(cb)
+                elif kind == "cb":
                     c.p.set_exit_callback(r.calls.append)
                 else:
                     r.fut = c.p.wait_for_exit(raise_error=(kind == "wr"))
@@ -325,7 +334,8 @@ def run_case(proc, case, chooser, trace=None):
                         c = children[ev[1]]
                         k = rk[c.i] if kind == "reg" else ("wn" if c.regs[0].kind == "cb" else "cb")
                         say("%s child %d: %s" % (kind, c.i, {"cb": "set_exit_callback",
-                            "wr": "wait_for_exit()", "wn": "wait_for_exit(raise_error=False)"}[k]))
+                            "wr": "wait_for_exit()", "wn": "wait_for_exit(raise_error=False)",
+                            "cbr": "set_exit_callback(callback that registers again)"}[k]))
                         register(c, k)
                     elif kind == "sig":
                         cb, args = loop.signal_handlers[SIGCHLD]
@@ -509,6 +519,8 @@ class C42(Check):
             for r in RKINDS:
                 out.append(dict(children=[(s, r)], maxsig=3, bound=None))
                 out.append(dict(children=[(s, r)], maxsig=2, bound=None, rereg=True))
+        for s in SKEYS:                                  # the callback re-registers from inside itself
+            out.append(dict(children=[(s, "cbr")], maxsig=2, bound=None))
         for k in range(len(SKEYS)):                      # two children
             ss = rot(SKEYS, k, 2)
             for r0 in RKINDS:
